@@ -117,3 +117,22 @@ static void run_9007(const ShapeDesc& sd, RunCtl& ctl) {
 static const ShapeDesc shape_9007 = {9007, "unifex::retry_when(unifex::then(unifex::when_all_range(e.vec(e.leaf(0), e.leaf(1))), e.warfn(2)), [=](auto&& err) { ...; return e.leafv(2); })", nodes_9007, 5, 0, 3, 0, &run_9007};
 static Reg reg_9007(&shape_9007);
 }  // namespace
+namespace {
+using namespace ef;
+// P9008: let_error whose source completes with a value that the downstream receiver's set_value fails to copy (throwing move): the
+// source operation must be destroyed exactly once and the failure reported through set_error (fixed)
+static const NodeDesc nodes_9008[] = {
+  {K_ANY, 1, 0, 1, {1, 0, 0, 0, 0}, 'V'},
+  {K_LET_ERROR, 2, 0, 2, {2, 3, 0, 0, 0}, 'V'},
+  {K_LEAF, 3, 0, 0, {0, 0, 0, 0, 0}, 'V'},
+  {K_LEAF, 4, 1, 0, {0, 0, 0, 0, 0}, 'V'}
+};
+static void run_9008(const ShapeDesc& sd, RunCtl& ctl) {
+  run_shape_impl<Cfg<3>>(sd, ctl, [](auto e) {
+    using E = decltype(e); using T = typename E::T;
+    return unifex::any_sender_of<T>(unifex::let_error(e.leaf(0), [=](auto&& err) mutable { e.bind_err(2, err); E::call(2); return e.leaf(1); }));
+  });
+}
+static const ShapeDesc shape_9008 = {9008, "unifex::any_sender_of<T>(unifex::let_error(e.leaf(0), [=](auto&& err) { ...; return e.leaf(1); }))", nodes_9008, 4, 0, 2, 3, &run_9008};
+static Reg reg_9008(&shape_9008);
+}  // namespace
